@@ -12,6 +12,7 @@
                  parameters to the argument entities
      spec_results *)
 From CPF Require Export Engine.Eval.
+From CPF Require Import gen.Tables.
 Open Scope bs_scope.
 
 Definition max_depth : nat := 16.
@@ -68,7 +69,9 @@ Definition binop_text (o : binop) : bytes :=
   | BOr => "||" | BAnd => "&&" | BEq => "==" | BNe => "!=" | BLt => "<" | BGt => ">" | BLe => "<="
   | BGe => ">=" | BIn => " in " | BAdd => "+" | BSub => "-" | BMul => "*" | BDiv => "/"
   end.
-Definition value_text (v : value) : bytes := match v with VStr t => t | VNum t => t end.
+(* a line feed inside a STRING token is handed to the evaluator as the escape backslash-n *)
+Definition escape_lf (t : bytes) : bytes := flat_map (fun c => if beqb c x0a then [x5c; x6e] else [c]) t.
+Definition value_text (v : value) : bytes := match v with VStr t => escape_lf t | VNum t => t end.
 
 Fixpoint sep_pieces (sep : bytes) (l : list (list bytes)) : list bytes :=
   match l with
@@ -147,8 +150,21 @@ Definition accepted (q : query) (t : list node) : verdict := filter_verdict (tup
 Definition results (q : query) (g : list node) : list (list node) :=
   filter (fun t => match accepted q t with Accept => true | _ => false end) (candidates q g).
 
+(* FROM clause inside the fragment: kinds the engine binds, pairwise distinct; aliases pairwise
+   distinct and not spelled like a kind (generateProxyEnv keys its env by kind, see DESIGN D37) *)
+Fixpoint nodupb (l : list bytes) : bool :=
+  match l with [] => true | x :: r => negb (existsb (bytes_eqb x) r) && nodupb r end.
+
+Definition from_ok (q : query) : bool :=
+  let kinds := List.map fst (q_from q) in
+  let aliases := List.map snd (q_from q) in
+  nodupb kinds && nodupb aliases
+  && forallb (fun k => match kind_bindings k with Some _ => true | None => false end) kinds
+  && forallb (fun a => negb (existsb (fun '(_, d) => bytes_eqb a d) engine_var_default)) aliases.
+
 (* is any candidate outside the modelled fragment?  (then the harness does not compare) *)
 Definition in_fragment (q : query) (g : list node) : bool :=
+  from_ok q &&
   forallb (fun t => match accepted q t with Unknown => false | _ => true end) (candidates q g).
 
 (* SELECT items *)
@@ -178,14 +194,17 @@ Definition sel_value (env : tenv) (s : sel_item) : option val :=
       match sel_xexpr s with
       | None => None
       | Some x =>
-          if names_bound env x then
-            match eval env x with
-            | Val (VFunc _ _ _ | VEnv _ _ | VObj _) => None
-            | Val v => Some v
-            | OutOfFragment => None
-            | RunErr | CompErr => Some (VS [])      (* evaluateExpression returns "" after printing the error *)
-            end
-          else Some (VS [])
+          match static env x with
+          | SErr => Some (VS [])
+          | SOOF => None
+          | SOk _ =>
+              match eval env x with
+              | Val (VFunc _ _ _ | VEnv _ _ | VObj _) => None
+              | Val v => Some v
+              | OutOfFragment => None
+              | RunErr | CompErr => Some (VS [])      (* evaluateExpression returns "" after printing the error *)
+              end
+          end
       end
   end.
 
